@@ -493,6 +493,7 @@ func main() {
 	r.Set("evaluations", evaluations)
 	r.Set("distinct_nontrivial", len(outcomes))
 	r.Set("worker_processes", a.procs)
+	r.Set("worker_process_wall_s_total", int(a.cpuProcS))
 	r.Set("rule", "states = distinct canonical on-disk/buffer states reached by write histories + distinct damage images; transitions = write/tick/restart events executed on the real baseWAL; evaluations = images (clean, crash, undamaged, each truncation, each alteration) read back through the real GroupReader/WALDecoder/SearchForEndHeight and compared with the reference record list; distinct_nontrivial = distinct (reader, damage class, outcome) combinations observed")
 	r.Assume("the head size limit is 1 byte, so a tick rotates whenever the head file is non-empty; larger thresholds only remove rotations, and tick-free histories are enumerated too; the total-size limit (1 GiB) never triggers")
 	r.Assume("ticks are explicit events (what Group.processTicks runs per tick); the 1 s AutoFile ticker that closes and reopens the head file descriptor is not modelled (O_APPEND reopen, no effect on content)")
